@@ -48,9 +48,10 @@ def model_update(
     act: int,
     next_obs: int,
 ):
-    model.transition = model.transition.at[obs, act, next_obs].set(
-        counter.transition_counter[obs][act][next_obs]
-        / sum(counter.transition_counter[obs][act])
+    # all successor frequencies of (obs, act) change with the visit count
+    counts = counter.transition_counter[obs][act]
+    model.transition = model.transition.at[obs, act].set(
+        jnp.asarray(counts) / sum(counts)
     )
     model.reward = model.reward.at[obs, act, next_obs].set(
         np.mean(counter.reward_history[obs][act][next_obs])
